@@ -511,6 +511,8 @@ def sec_sampling_rule(rec, patches=None):
     (executed by C02's sampling section; 'loading a sub-tomogram at a simulated molecule returns the template' rests on it)"""
     from .c02 import sec_sampling
 
+    for shp in ((3, 3, 3), (2, 3, 4)):  # unrotated molecules on concrete boxes (all linear): shortcuts that skip the interpolation
+        sec_sampling(rec, order=1, corner_safe=False, shape=shp, quat=(0, 0, 0, 1), patches=patches)
     sec_sampling(rec, order=1, corner_safe=False, patches=patches)
 
 
